@@ -1114,7 +1114,7 @@ pub fn gen_case(rng: &mut Rng, idx: usize, big: bool) -> Case {
         }
         for r in session.iter_mut() {
             // ... including limits that have expired by the time the first wait is computed (0, 1 ns, half a millisecond)
-            r.1 = Some(*rng.pick(&[0, 1, 500_000, 100 * NS_PER_MS, 100 * NS_PER_MS, 2_000 * NS_PER_MS]));
+            r.1 = Some(*rng.pick(&[0, 1, 500_000, 100 * NS_PER_MS, 2_000 * NS_PER_MS, 100 * NS_PER_MS, 2_000 * NS_PER_MS, 100 * NS_PER_MS, 2_000 * NS_PER_MS]));
         }
     }
     let _ = idx;
@@ -1137,6 +1137,51 @@ pub fn gen_case(rng: &mut Rng, idx: usize, big: bool) -> Case {
         long_sleep: if style == 8 { 1500 * NS_PER_MS } else { *rng.pick(&[0u64, 0, 3 * NS_PER_MS, 60 * NS_PER_MS, 1500 * NS_PER_MS]) },
         fault_pm: if style == 8 { *rng.pick(&[0u64, 120, 300]) } else { *rng.pick(&[0u64, 0, 0, 0, 15, 120]) },
         string_api,
+    }
+}
+
+/// Directed families, one case in ten: shapes that stored seeded changes needed and that the random generator only hits by
+/// luck (so that a change to the generator cannot silently lose them).  The random choices inside come from a COPY of the
+/// generator state: the stream of the other cases is not disturbed.
+fn direct(c: &mut Case, idx: usize, mut rng: Rng) {
+    if c.string_api {
+        return;
+    }
+    let big_limits = [100 * NS_PER_MS, 2_000 * NS_PER_MS];
+    match idx % 40 {
+        // stdin is the only stream, the input does not fit the pipe, the child is slow to read it, every read has a time limit
+        7 | 27 => {
+            c.has_in = true;
+            c.has_out = false;
+            c.has_err = false;
+            let n = *rng.pick(&[5_000usize, 70_000, 70_000, 150_000]);
+            c.input = pattern(&mut rng, n, false);
+            c.cap_in = *rng.pick(&[4096usize, 65536, 65536]);
+            c.script = vec![CAct::Sleep, CAct::ReadIn(1000), CAct::Sleep, CAct::Sleep, CAct::ReadIn(4096), CAct::Sleep, CAct::ReadIn(1 << 30)];
+            let t = *rng.pick(&big_limits);
+            c.session = vec![(None, Some(t)); 6];
+            c.long_sleep = 1500 * NS_PER_MS;
+            c.dt_max = 300_000;
+            c.fault_pm = 0;
+            c.tiny_ok = false;
+        }
+        // a child that says a little and then nothing for long stretches, both outputs captured, limits well above one round
+        // of I/O: the wait must end at the limit, not at a multiple of it
+        17 | 37 => {
+            c.has_out = true;
+            c.has_err = true;
+            c.script = vec![CAct::Sleep, CAct::Write(false, pattern(&mut rng, 10, false)), CAct::Sleep, CAct::Sleep, CAct::Sleep,
+                            CAct::Write(true, pattern(&mut rng, 5, false)), CAct::Sleep, CAct::Sleep, CAct::ReadIn(1 << 30)];
+            let t = *rng.pick(&big_limits);
+            c.session = vec![(None, Some(t)); 5];
+            c.long_sleep = 1500 * NS_PER_MS;
+            c.dt_max = *rng.pick(&[1000u64, 300_000]);
+            c.fault_pm = *rng.pick(&[0u64, 0, 120]);
+            c.cap_out = c.cap_out.max(4096);
+            c.cap_err = c.cap_err.max(4096);
+            c.tiny_ok = false;
+        }
+        _ => {}
     }
 }
 
@@ -1182,7 +1227,8 @@ pub fn run(seed: u64, n: usize, only: Option<usize>, big: bool) {
     let _ = p.wait();
     let mut rng = Rng(seed ^ 0xc077);
     for i in 0..n {
-        let c = gen_case(&mut rng, i, big);
+        let mut c = gen_case(&mut rng, i, big);
+        direct(&mut c, i, rng.clone());
         if let Some(k) = only {
             if k != i {
                 continue;
